@@ -218,7 +218,7 @@ def validate(defn):
 
 PROBES = {
     # Hand-written rejected definitions whose top-level shape is fine but which the engine cannot interpret further.
-    # Each entry: definition, worker script, input.  The first five were left RUNNING for ever before the repairs
+    # Each entry: definition, worker script, input.  The first eight were left RUNNING for ever before the repairs
     # recorded in known_findings.json ("fixed"); they must now end FAILED.  The last two are the recorded findings that
     # remain: the exception is raised in notify() outside the handlers' try blocks (the dispatcher can only drop the
     # event) or in a reply callback, outside every handler that could fail the execution.
@@ -230,6 +230,9 @@ PROBES = {
     "parallel-parameters-unparsable": ({"StartAt": "P", "States": {"P": {
         "Type": "Parallel", "Parameters": {"x.$": "Z"}, "End": True,
         "Branches": [{"StartAt": "B", "States": {"B": {"Type": "Pass", "End": True}}}]}}}, {}, {}),
+    "definition-without-states": ({"StartAt": "A"}, {}, {}),
+    "definition-without-startat": ({"States": {"A": {"Type": "Pass", "End": True}}}, {}, {}),
+    "definition-startat-not-a-string": ({"StartAt": 5, "States": {"5": {"Type": "Pass", "End": True}}}, {}, {}),
     "timeoutseconds-not-a-number": ({"StartAt": "A", "States": {"A": {"Type": "Pass", "End": True}}, "TimeoutSeconds": [1]},
                                     {}, {}),
     "retrier-without-errorequals": ({"StartAt": "A", "States": {"A": {
@@ -286,6 +289,12 @@ TYPED_BASE = {"StartAt": "T", "TimeoutSeconds": 600, "Comment": "c", "Version": 
 TYPED_VALUES = ["text", "", None, [1], [], {"a": 1}, {}, True, 1.5, -1, 0]
 
 
+# shapes the validator once let through (repaired): it has to report a problem for each
+MUST_REJECT = [(("States", "T"), []), (("States", "T"), {}), (("States", "M", "MaxConcurrency"), -1),
+               (("States", "M", "MaxConcurrency"), 1.5), (("States", "T", "Retry", 0), {}), (("States", "T", "Catch", 0), {}),
+               (("States", "P", "Branches", 0), {}), (("States", "C", "Choices", 0), {}), (("States", "P", "Branches", 0), [])]
+
+
 def run_typed(k, extra):
     """The validator alone: every field of a machine that uses every state type (and Retry / Catch) x every JSON type
     in its place - it must report problems (return a list), never raise."""
@@ -303,6 +312,16 @@ def run_typed(k, extra):
                                  "detail": "StateLint.validate raised/returned %s for %s = %r" % (crash, "/".join(map(str, p)), v),
                                  "seed": k, "typed": [list(p), v]})
                 break
+    if k == 0:
+        for p, v in MUST_REJECT:
+            m = copy.deepcopy(TYPED_BASE)
+            get(m, p[:-1])[p[-1]] = v
+            n += 1
+            problems, crash = validate(m)
+            if not crash and not problems:
+                findings.append({"property": PROP, "rule": "validator-accepts-malformed", "witness": "/".join(map(str, p[1:])),
+                                 "detail": "StateLint.validate reports no problem for %s = %r" % ("/".join(map(str, p)), v),
+                                 "seed": k, "typed": [list(p), v]})
     return {"evaluations": n, "probes": {"validator-only:typed-wrong-fields": n}, "findings": findings[:3],
             "distinct": [common.sha(["typed", k])]}
 
@@ -538,8 +557,9 @@ def main(argv):
             m = copy.deepcopy(TYPED_BASE)
             get(m, rec["typed"][0][:-1])[rec["typed"][0][-1]] = rec["typed"][1]
             problems, crash = validate(m)
-            print("replay %s: %s" % (argv[1], "REPRODUCED" if crash else "not reproduced"))
-            return 1 if crash else 0
+            hit = bool(crash) if rec["rule"] == "validator-raised" else (not crash and not problems)
+            print("replay %s: %s" % (argv[1], "REPRODUCED" if hit else "not reproduced"))
+            return 1 if hit else 0
         if rec.get("whole"):
             i = ("corpus", rec["whole"])
         elif rec.get("probe"):
